@@ -11,7 +11,7 @@ variable {K : Type} [Add K] [Mul K] [Neg K] [Zero K] [One K]
 
 /-- documented `n × n` transformation of a leaf component -/
 def Prim.specMat (i : K) (n : Nat) : Prim K → M K
-  | .loss m a _ => M.ofFn n fun r k => if r = k then (if r = m then a else 1) else 0
+  | .loss m a _ => embed1 n m a
   | p => p.mat i n
 
 def flattenSpec (spec : List (Comp K)) : List (Prim K) := spec.flatMap Comp.toPrims
